@@ -288,11 +288,12 @@ def run_unit(unit, tier='quick', tag='main', solver=None):
     spec = os.path.join(CONTRACTS, unit + '.spec')
     t0 = time.time()
     force = {}
+    auto_consts = []
     attempts = 0
     while True:
         attempts += 1
         try:
-            u, text, info = W.build_unit(spec, REPO, CONTRACTS, shims.SHIMS, force)
+            u, text, info = W.build_unit(spec, REPO, CONTRACTS, shims.SHIMS, force, 0, auto_consts)
         except (W.WeaveError, ScanError) as e:
             raise Undecided('weave error in unit %s: %s' % (unit, e))
         for f, fi in info.items():
@@ -332,6 +333,25 @@ def run_unit(unit, tier='quick', tag='main', solver=None):
                     if os.path.basename(sp['file_name']) == fname and sp['line_start'] < len(fn_of) and fn_of[sp['line_start']]:
                         culprits.add(fn_of[sp['line_start']])
             culprits = [c for c in culprits if c not in force and c in info and not info[c]['extern']]
+            # a function that names a top-level constant of its own source file which the unit does not extract yet
+            # (a literal given a name): extract the constant verbatim and try again before giving the function up
+            added = False
+            for d in tool_errs:
+                mm = re.search(r'cannot find value `([A-Z][A-Z0-9_]*)` in this scope', d.get('message') or '')
+                if not mm or attempts > 6:
+                    continue
+                for c in culprits:
+                    rel = info[c]['src']
+                    try:
+                        srctext = open(os.path.join(REPO, rel), encoding='utf-8').read()
+                    except OSError:
+                        continue
+                    if re.search(r'(?m)^(pub(\([a-z]+\))?\s+)?const\s+%s\s*:\s*(usize|u8|u16|u32|u64|i32|i64|bool|char)\s*=' % mm.group(1), srctext) \
+                            and (rel, mm.group(1)) not in auto_consts:
+                        auto_consts.append((rel, mm.group(1)))
+                        added = True
+            if added:
+                continue
             if culprits and attempts <= 6:
                 for c in culprits:
                     msg = [d.get('message') for d in tool_errs if any(os.path.basename(sp['file_name']) == fname and fn_of[min(sp['line_start'], len(fn_of) - 1)] == c for sp in d.get('spans', []))]
@@ -373,7 +393,7 @@ def run_unit(unit, tier='quick', tag='main', solver=None):
         from concurrent.futures import ThreadPoolExecutor
 
         def one(k):
-            uk, tk, ik = W.build_unit(spec, REPO, CONTRACTS, shims.SHIMS, force, k)
+            uk, tk, ik = W.build_unit(spec, REPO, CONTRACTS, shims.SHIMS, force, k, auto_consts)
             fk = '%s_%s_v%d.rs' % (unit, tag, k)
             pk = os.path.join(BUILD, unit, fk)
             write_atomic(pk, tk)
